@@ -64,6 +64,7 @@ res["verified_here"]["existing_tests_with_change"] = "pass" if rc == 0 else "FAI
 demo_files = [f for f in os.listdir(mdir) if f.endswith(".go")]
 copy_to = meta.get("demo_copy_to", "")
 demo_cmd = meta.get("demo_cmd", "").replace("<repo root>", wt).replace("<repo-root>", wt).replace("$REPO", wt)
+demo_cmd = re.sub(r"\s{2,}\([^()]*\)\s*$", "", demo_cmd)  # trailing prose remark in parentheses
 copied = []
 def copy_demo():
     for f in demo_files:
@@ -116,3 +117,8 @@ json.dump(meta, open(os.path.join(dst, "meta.json"), "w"), indent=1)
 print(name, "kept" if ok else "NOT KEPT", json.dumps(res["verified_here"])[:500])
 for cid, r in res["checks"].items():
     print("  check", cid, "caught" if r["caught"] else f"MISSED (exit {r['exit']})", r["classes"], r["summary"][:160])
+
+# scratch build dirs of this worktree (vcheck keeps one per tree and check)
+import glob as _glob, shutil as _shutil
+for _d in _glob.glob("/verif/build/*-" + wt.strip("/").replace("/", "_")):
+    _shutil.rmtree(_d, ignore_errors=True)
